@@ -84,14 +84,17 @@ def gen_spec(seed):
         quali[f'k{j}'] = v
     spec = {'task': task, 'quanti': quanti, 'quali': quali, 'y': y,
             'n_best': rng.randint(1, max(1, nq + nk)), 'thresh_corr': rng.choice([1, 1, 0.9, 0.7, 0.5]),
-            'measures': rng.choice(['default', 'default', 'alt'] + (['outlier', 'multi'] if task == 'classification' else [])),
+            'measures': rng.choice(['default', 'default', 'alt'] + (['outlier', 'multi', 'ronly'] if task == 'classification' else [])),
             'copy_of_target': False, 'select_twice': rng.random() < 0.3,
             # user-set screens on the share of the mode / of missing values (None: the defaults, 0.999)
             'thresh_mode': rng.choice([None, None, 0.9, 0.6, 0.5]), 'thresh_nan': rng.choice([None, None, None, 0.5, 0.3])}
     if rng.random() < 0.3:
         # a feature that is an exact copy of / strictly monotone in the target
         if task == 'regression' or rng.random() < 0.5:
-            spec['quanti']['qcopy'] = [float(v) if rng.random() < 2 else None for v in y] if rng.random() < 0.5 else [float(v) * 3 + 1 for v in y]
+            style = rng.choice(['copy', 'affine', 'cube', 'exp'])
+            fn = {'copy': float, 'affine': lambda v: float(v) * 3 + 1, 'cube': lambda v: float(v) ** 3 + float(v),
+                  'exp': lambda v: round(math.exp(min(float(v), 20.0)), 9)}[style]       # (strictly monotone, not linear, in the target)
+            spec['quanti']['qcopy'] = [fn(v) for v in y]
             spec['copy_of_target'] = 'qcopy'
         else:
             spec['quali']['kcopy'] = ['cls%s' % v for v in y]
@@ -114,6 +117,10 @@ def frames(spec):
     if spec.get('row_order'):
         X = X.iloc[spec['row_order']].reset_index(drop=True)
         y = y.iloc[spec['row_order']].reset_index(drop=True)
+    if spec.get('row_order_keep_labels'):
+        # the rows of X and y in another order, every row still carrying its original index label
+        X = X.iloc[spec['row_order_keep_labels']]
+        y = y.iloc[spec['row_order_keep_labels']]
     return X, y
 
 
@@ -129,6 +136,8 @@ def make_selector(spec):
         if spec['measures'] == 'outlier':       # user-supplied outlier screen before the association measure
             kw['quantitative_measures'] = [S.zscore_measure, S.kruskal_measure]
             kw['thresh_zscore'] = 0.03
+        if spec['measures'] == 'ronly':         # a user-chosen measure: the correlation ratio (R of x on the classes of y)
+            kw['quantitative_measures'] = [S.R_measure]
         if spec['measures'] == 'multi':         # two association measures, both evaluated
             kw['quantitative_measures'] = [S.kruskal_measure, S.R_measure]
             kw['thresh_kruskal'] = 1e12
@@ -274,7 +283,7 @@ def reference_measure(spec, f, which=0):
         if spec['task'] == 'classification':
             if spec['measures'] == 'outlier' and zscore_discards(x, 0.03):
                 return None
-            if spec['measures'] == 'multi' and which == 1:
+            if (spec['measures'] == 'multi' and which == 1) or spec['measures'] == 'ronly':
                 return eta(x, y)
             classes = list(dict.fromkeys(y))
             return kruskal_h([[v for v, c in zip(x, y) if v is not None and c == cl] for cl in classes])
@@ -432,6 +441,11 @@ def reencodings(spec, seed):
     rng.shuffle(perm)
     s['row_order'] = perm
     out.append(('row_permutation', s))
+    s = copy.deepcopy(spec)
+    perm = list(range(n))
+    rng.shuffle(perm)
+    s['row_order_keep_labels'] = perm
+    out.append(('row_permutation_keeping_labels', s))
     s = copy.deepcopy(spec)
     cols = list(spec['quanti']) + list(spec['quali'])
     rng.shuffle(cols)
